@@ -1,7 +1,10 @@
 #!/bin/bash
-# run_all.sh [tier] : every registered check on /repo's current tree, one after another; summary at the end
+# run_all.sh [tier] [Cxx...] : every registered check (or the named ones) on /repo's current tree, one after another.
+# The work directory of a check (ops / outputs of every shard: gigabytes at the thorough tier) is removed after each check.
 cd "$(dirname "$0")"
-T=${1:-quick}
-for p in $(python3 -c "import json;print(' '.join(c['property_id'] for c in json.load(open('MANIFEST.json'))['checks']))"); do
+T=${1:-quick}; shift
+PROPS=${@:-$(python3 -c "import json;print(' '.join(c['property_id'] for c in json.load(open('MANIFEST.json'))['checks']))")}
+for p in $PROPS; do
   ./check $p --tier $T > /tmp/run_all_$p.log 2>&1; echo "$p exit=$? $(tail -1 /tmp/run_all_$p.log | cut -c1-200)"
+  rm -rf work/$p/run
 done
